@@ -82,7 +82,12 @@ func runOwn(ctx context.Context, text []byte, kp keys.Pair, interp bool, yamlOK 
 	if p.Env != nil {
 		penv = p.Env.ToMap()
 	}
-	shapeBefore := gt.Show(canon.Pipeline(p, canon.Mode{NoSignature: true}))
+	treeBefore := canon.Pipeline(p, canon.Mode{NoSignature: true})
+	shapeBefore := gt.Show(treeBefore)
+	// the YAML-leg carve-out covers strings the parse derives too (a command joined from a list that begins with "")
+	if yamlOK && doc.HasString(treeBefore, func(s string) bool { return !strs.YAMLLegOK(s) }) {
+		yamlOK = false
+	}
 	if err := signature.SignSteps(ctx, p.Steps, kp.Priv, "repo", signature.WithEnv(penv)); err != nil {
 		r.err = fmt.Sprintf("sign: %v", err)
 		return
@@ -157,8 +162,24 @@ func tombstoned(t *rapid.T) (*ordered.MapSA, *ordered.MapSA, bool) {
 	var hist []op
 	tomb := false
 	keysA := []string{"a", "b", "c", "d", "e", "f", "g", "h", "i", "j", "k", "l"}
-	for i, n := 0, rapid.IntRange(3, 40).Draw(t, "nops"); i < n; i++ {
+	// churn mode: a long run of Set / Replace only (no Delete, hence no compaction), the replaced key
+	// mostly absent and the new key mostly present - every such Replace appends a slot and tombstones one,
+	// so the backing slice grows far beyond the live keys (dozens of slots, mostly deleted)
+	churn := rapid.IntRange(0, 2).Draw(t, "churn") == 1
+	nops := rapid.IntRange(3, 40).Draw(t, "nops")
+	if churn {
+		nops = rapid.IntRange(40, 120).Draw(t, "churnops")
+	}
+	for i := 0; i < nops; i++ {
 		o := op{kind: rapid.IntRange(0, 4).Draw(t, "op"), k: rapid.SampledFrom(keysA).Draw(t, "k"), k2: rapid.SampledFrom(keysA).Draw(t, "k2")}
+		if churn {
+			o.kind = rapid.SampledFrom([]int{0, 4, 4, 4}).Draw(t, "churnop")
+			o.k = fmt.Sprintf("gone%d", rapid.IntRange(0, 30).Draw(t, "gone"))
+			o.k2 = rapid.SampledFrom(keysA[:5]).Draw(t, "k2small")
+			if o.kind == 0 {
+				o.k = o.k2
+			}
+		}
 		switch rapid.IntRange(0, 3).Draw(t, "vk") {
 		case 0:
 			o.v = i
@@ -190,6 +211,9 @@ func tombstoned(t *rapid.T) (*ordered.MapSA, *ordered.MapSA, bool) {
 		}
 	}
 	apply(m)
+	if churn {
+		rec.Class("shared-map-replace-churn")
+	}
 	twin := ordered.NewMap[string, any](0)
 	apply(twin)
 	return m, twin, tomb
@@ -201,7 +225,7 @@ func TestPropConcurrentUse(t *testing.T) {
 	ctx := context.Background()
 	pool := keys.Pool()
 	ev.Check(t, 40, 300, func(t *rapid.T) {
-		g := doc.NewG(t, doc.Config{Anchors: rapid.Bool().Draw(t, "anchors"), Timestamps: true, Floats: true, BigMaps: true, BigMapOneIn: 3,
+		g := doc.NewG(t, doc.Config{Anchors: rapid.Bool().Draw(t, "anchors"), Timestamps: true, Floats: true, BigMaps: true, BigMapOneIn: 6,
 			EmptyKey: true, EmptyMatrix: true, BothCommands: true})
 		root := g.Pipeline()
 		d, err := doc.Render(root, 2, 20000)
@@ -268,8 +292,22 @@ func TestPropConcurrentUse(t *testing.T) {
 		}
 		var shared []*pipeline.CommandStep
 		walk(ps.Steps, func(cs *pipeline.CommandStep) { shared = append(shared, cs) })
-		mBefore, psBefore := gt.Show(canon.Value(m)), gt.Show(canon.Pipeline(ps, canon.Raw))
-		mJSON, _ := json.Marshal(m)
+		// a second shared pipeline that nothing has observed yet (signing above has already walked ps):
+		// its expected snapshot and bytes come from a twin parse of the same text
+		pu, _ := pipeline.Parse(bytes.NewReader(d.YAML))
+		puTwin, _ := pipeline.Parse(bytes.NewReader(d.YAML))
+		if pu == nil || puTwin == nil {
+			return
+		}
+		puBefore := gt.Show(canon.Pipeline(puTwin, canon.Raw))
+		puJSON, _ := json.Marshal(puTwin)
+		var fresh []*pipeline.CommandStep
+		walk(pu.Steps, func(cs *pipeline.CommandStep) { fresh = append(fresh, cs) })
+		// the shared map is first touched by the concurrent observers themselves (an observer that tidies
+		// the map up on first use would otherwise do so here, sequentially): the expected snapshot and
+		// bytes are taken from the twin built through the same history
+		mBefore, psBefore := gt.Show(canon.Value(twin)), gt.Show(canon.Pipeline(ps, canon.Raw))
+		mJSON, _ := json.Marshal(twin)
 		psJSON, _ := json.Marshal(ps)
 		penvBefore := fmt.Sprint(penv)
 		start2 := make(chan struct{})
@@ -284,7 +322,7 @@ func TestPropConcurrentUse(t *testing.T) {
 					}
 				}()
 				<-start2
-				for round := 0; round < 3; round++ {
+				for round := 0; round < 2; round++ {
 					// the shared ordered map
 					for _, k := range []string{"a", "e", "l", "zz"} {
 						m.Get(k)
@@ -312,7 +350,7 @@ func TestPropConcurrentUse(t *testing.T) {
 					if b, err := json.Marshal(ps); err != nil || !bytes.Equal(b, psJSON) {
 						errs[i] = "pipeline JSON differs"
 					}
-					if yamlOK {
+					if yamlOK && round == 0 {
 						if _, err := yaml.Marshal(ps); err != nil {
 							errs[i] = "pipeline YAML error: " + err.Error()
 						}
@@ -327,6 +365,17 @@ func TestPropConcurrentUse(t *testing.T) {
 						}
 						for _, pl := range cs.Plugins {
 							pl.FullSource()
+						}
+					}
+					// the shared pipeline nobody has observed before
+					if b, err := json.Marshal(pu); err != nil || !bytes.Equal(b, puJSON) {
+						errs[i] = "JSON of the shared, so far unobserved pipeline differs from its twin's"
+					}
+					if round == 0 {
+						for _, cs := range fresh {
+							if _, err := signature.Sign(ctx, kp.Priv, &signature.CommandStepWithInvariants{CommandStep: *cs, RepositoryURL: "repo"}, signature.WithEnv(penv)); err != nil {
+								errs[i] = "Sign of unobserved shared step: " + err.Error()
+							}
 						}
 					}
 					// the shared key set
@@ -356,6 +405,9 @@ func TestPropConcurrentUse(t *testing.T) {
 		}
 		if after := gt.Show(canon.Pipeline(ps, canon.Mode{NoSignature: true})); after != psUnsigned {
 			t.Fatalf("signing / marshalling / verifying modified the shared pipeline beyond attaching signatures\n%s", d.YAML)
+		}
+		if after := gt.Show(canon.Pipeline(pu, canon.Raw)); after != puBefore {
+			t.Fatalf("observers (marshal / Sign) modified the shared pipeline they were the first to observe\n%s", d.YAML)
 		}
 		if b, _ := json.Marshal(ps); !bytes.Equal(b, psJSON) {
 			t.Fatalf("marshalled form of the shared pipeline changed")
